@@ -188,7 +188,7 @@ def run_shard(args) -> dict:
                 report_multiple_bugs=False,
                 derandomize=False,
                 suppress_health_check=list(HealthCheck),
-                phases=[Phase.generate, Phase.shrink],
+                phases=[Phase.generate] if getattr(check, "NO_SHRINK", False) else [Phase.generate, Phase.shrink],
                 print_blob=False,
             )(test)
             try:
